@@ -1086,6 +1086,10 @@ class MyPyAstVisitor:
 
         # Type aliases are replaced by their target. Mypy also uses them for classes of named tuples and typed dicts.
         if isinstance(mypy_type, mp_types.TypeAliasType):
+            if mypy_type.is_recursive:
+                # A recursive type alias, e.g. for JSON data, can't be replaced by its target
+                logging.warning("Could not parse a recursive type alias, added unknown type instead.")
+                return sds_types.UnknownType()
             mypy_type = mp_types.get_proper_type(mypy_type)
 
         # Classes that inherit from NamedTuple or TypedDict are classes of the package, not tuples or dictionaries
